@@ -38,6 +38,11 @@ func (f *Frame) call(st *State, r *Term, site ssa.Instruction, cc *ssa.CallCommo
 			callee, bindings = cv.Fn, cv.Bindings
 		} else {
 			f.check("safe", "nil-func-call:"+describe(cc.Value), r, Neq(v, IntLit(0)), pos)
+			if f.top().relational {
+				if out, ok := f.deterministicCall(st, v, cc, args); ok {
+					return out
+				}
+			}
 			f.fieldFnCallPre(st, r, cc, args, pos)
 			if ftKey, nt := functypeKey(f.subst(cc.Value.Type())); nt != nil {
 				if ct := f.ctx.eng.contracts.Funcs[ftKey]; ct != nil {
@@ -120,6 +125,15 @@ func (f *Frame) callFn(st *State, r *Term, callee *ssa.Function, bindings []Val,
 	}
 	if len(target.Blocks) > 0 && f.depth < maxInlineDepth && (ct != nil && ct.Inline || eng.autoInline(target, f)) && !f.onStack(target) {
 		return f.inlineCall(st, r, target, tmap, bindings, args)
+	}
+	if f.top().relational && ct == nil && len(target.Blocks) > 0 && len(bindings) == 0 {
+		// relational checks: a function that writes nothing is a deterministic function of its
+		// arguments and of what it reads
+		if eff := eng.effectsOf(target, f); !eff.top && len(eff.comps) == 0 {
+			if v, ok := f.pureCall(st, r, target, tmap, &Contract{Key: funcKey(target), Pure: true}, args, pos); ok {
+				return v
+			}
+		}
 	}
 	return f.havocCall(st, r, target, target.Signature, args, "")
 }
